@@ -13,7 +13,9 @@
    with a correct tree, see Props/C06.v), dist = the distance reported next to a pair, ctest = the test
    that decides whether the kept index is reused.  Hypotheses: near/dist symmetric; ctest accepts only the
    very same points (true of np.array_equal, fixes/C04_2; false of np.allclose, see asis_cache_refuted);
-   max_interval a whole number of seconds; bin width positive. *)
+   max_interval a whole number of seconds; bin width positive.
+   The second half of the file (each_index_pair_once ...) states the clauses "each pair once" and "the stored
+   interval and distance of each pair are its actual |dt| in seconds and distance", and the compaction. *)
 From Coq Require Import ZArith List Bool Lia.
 From Typhon Require Import Model.C13_compact Model.C04_collocate Proofs.C04_collocate.
 Import ListNotations.
@@ -142,11 +144,148 @@ Proof.
   vm_compute. repeat split.
 Qed.
 
-(* Stated in the property, checked on every generated case by the correspondence, NOT proved here:
-   each_pair_once : NoDup (map pid (points_of dp)) -> NoDup (map pid (points_of ds)) -> NoDup (ids_opt ... (collocate ...))
-   values_are_of_the_pair : the k-th interval is |t_p - t_s| / 1 s (truncated) and the k-th distance is
-                            dist of the positions of the k-th pair (model: create_return maps both from the
-                            same list of entries; search_exact_any_cache gives the distance of each entry). *)
+(* ------------------------------------------------------------------ each pair once
+   Reading guide.  `checked tn st c dp ds` = the rows pairs[:, passed_temporal_check] with their distances, as
+   (index into the NaN-free primary points, index into the NaN-free secondary points, distance);
+   `ipair` = the index pair of a row; `original_pairs` = the argument of _create_return (indices into the selected
+   points `selected_p` / `selected_s`, NaN points counted); `pair_pts res` = the k-th pair of the output as the two
+   stored points it names; `pos_dist p s` = Some (dist of their positions); `as_cds res` = the output as a compact
+   dataset of Model/C13_compact.v (pairs rows + stored points of both groups). *)
+
+(* No row is reported twice, on the direct and on the binned path, for every state of the Collocator: the
+   search lists each index pair once whichever side the index is built from (the row swap is injective), a bin
+   adds its offsets to rows of its own chunk, and a point of the binned dataset lies in one bin only - so no pair
+   comes from two bins, however far the secondary slices [bin start - max_interval, bin max + max_interval] of
+   neighbouring bins overlap. *)
+Theorem each_index_pair_once :
+  forall (P D : Type) (near : P -> P -> bool) (dist : P -> P -> D) (ctest : list P -> list P -> bool),
+  (forall a b, near a b = near b a) -> (forall a b, dist a b = dist b a) ->
+  (forall a b, ctest a b = true -> a = b) ->
+  forall tn st c dp ds, 0 < bw tn ->
+  NoDup (map (ipair D) (checked P D near dist ctest tn st c dp ds)).
+Proof. exact checked_once. Qed.
+
+(* each pair once, identified by the data it carries: ids unique within each dataset *)
+Theorem each_pair_once :
+  forall (P D : Type) (near : P -> P -> bool) (dist : P -> P -> D) (ctest : list P -> list P -> bool),
+  (forall a b, near a b = near b a) -> (forall a b, dist a b = dist b a) ->
+  (forall a b, ctest a b = true -> a = b) ->
+  forall tn st c dp ds, 0 < bw tn ->
+  NoDup (map pid (points_of P dp)) -> NoDup (map pid (points_of P ds)) ->
+  NoDup (ids_opt P D (snd (collocate P D near dist ctest tn st c dp ds))).
+Proof. exact pairs_once. Qed.
+
+(* The three arrays stay aligned through the temporal filter, the row swap, the bin offsets, _to_original and the
+   compaction: the k-th stored interval is |t_p - t_s| in whole seconds (truncated) and the k-th stored distance
+   is the distance the index reports for the positions of exactly the two points (p, s) that the k-th column of
+   Collocations/pairs names; these are points of the two inputs, and the id pair of row k is theirs. *)
+Theorem values_are_of_the_pair :
+  forall (P D : Type) (near : P -> P -> bool) (dist : P -> P -> D) (ctest : list P -> list P -> bool),
+  (forall a b, near a b = near b a) -> (forall a b, dist a b = dist b a) ->
+  (forall a b, ctest a b = true -> a = b) ->
+  forall tn st c dp ds res, 0 < bw tn ->
+  snd (collocate P D near dist ctest tn st c dp ds) = Some res ->
+  r_int res = map (fun ps => Z.abs (ptime (fst ps) - ptime (snd ps)) / sec) (pair_pts P D res) /\
+  map Some (r_dist res) = map (fun ps => pos_dist P D dist (fst ps) (snd ps)) (pair_pts P D res) /\
+  Forall (fun ps => In (fst ps) (points_of P dp) /\ In (snd ps) (points_of P ds)) (pair_pts P D res) /\
+  ids P D res = map (fun ps => (pid (fst ps), pid (snd ps))) (pair_pts P D res).
+Proof. exact values_of_the_pair. Qed.
+
+(* The compact output names exactly the reported pairs: it is a valid compact dataset (rows of equal length,
+   every index in range, every stored point used - compact_ok of Model/C13_compact.v), expanding it gives the
+   rows of original_pairs in their order, each as the two selected points it indexes, and each group stores the
+   points of its row of original_pairs once, in the order of first appearance. *)
+Theorem compaction_consistent :
+  forall (P D : Type) (near : P -> P -> bool) (dist : P -> P -> D) (ctest : list P -> list P -> bool),
+  (forall a b, near a b = near b a) -> (forall a b, dist a b = dist b a) ->
+  (forall a b, ctest a b = true -> a = b) ->
+  forall tn st c dp ds res, 0 < bw tn ->
+  snd (collocate P D near dist ctest tn st c dp ds) = Some res ->
+  let f1 := selected_p P c dp ds in let f2 := selected_s P c dp ds in
+  let op := original_pairs P D near dist ctest tn st c dp ds in
+  op <> [] /\
+  Forall (fun ij => (fst ij < length f1)%nat /\ (snd ij < length f2)%nat) op /\
+  compact_ok (as_cds P D res) /\
+  expand (d0 P) (d0 P) (as_cds P D res) = map (fun ij => (nth (fst ij) f1 (d0 P), nth (snd ij) f2 (d0 P))) op /\
+  r_prim res = gather (d0 P) (uniq (map fst op)) f1 /\ r_sec res = gather (d0 P) (uniq (map snd op)) f2.
+Proof. exact compaction_ok. Qed.
+
+(* None exactly when no row passes the temporal check (every code path that returns self.empty) *)
+Theorem none_iff_no_row :
+  forall (P D : Type) (near : P -> P -> bool) (dist : P -> P -> D) (ctest : list P -> list P -> bool),
+  forall tn st c dp ds,
+  snd (collocate P D near dist ctest tn st c dp ds) = None <-> original_pairs P D near dist ctest tn st c dp ds = [].
+Proof. exact none_iff_no_original. Qed.
+
+(* every original point is stored once: the ids stored in each group are distinct *)
+Theorem stored_points_once :
+  forall (P D : Type) (near : P -> P -> bool) (dist : P -> P -> D) (ctest : list P -> list P -> bool),
+  (forall a b, near a b = near b a) -> (forall a b, dist a b = dist b a) ->
+  (forall a b, ctest a b = true -> a = b) ->
+  forall tn st c dp ds res, 0 < bw tn ->
+  snd (collocate P D near dist ctest tn st c dp ds) = Some res ->
+  NoDup (map pid (points_of P dp)) -> NoDup (map pid (points_of P ds)) ->
+  NoDup (map pid (r_prim res)) /\ NoDup (map pid (r_sec res)).
+Proof. exact stored_once. Qed.
+
+(* The code does not carry rows (i, j, distance) but three arrays - pairs (2 x n), distances, intervals - and
+   keeps them aligned by repeating each step on each array: the row swap exchanges the two rows of `pairs` only,
+   the bin offsets are added per row, np.hstack runs over the list of pairs and over the list of distances, the
+   mask of the temporal check is applied to pairs, intervals and distances separately.  `collocate_a`
+   (Model/C04_collocate.v, Section Arrays) does exactly that; it returns the same state and the same result as
+   `collocate`, so every theorem of this file is a theorem about the array form, and the correspondence
+   evaluates the array form. *)
+Theorem arrays_agree :
+  forall (P D : Type) (near : P -> P -> bool) (dist : P -> P -> D) (ctest : list P -> list P -> bool),
+  forall tn st c dp ds,
+  collocate_a P D near dist ctest tn st c dp ds = collocate P D near dist ctest tn st c dp ds.
+Proof. exact collocate_a_eq. Qed.
+
+(* The checker the harness applies to what the implementation returned (pairs rows, stored ids): a passed
+   check means a valid compact dataset with distinct stored ids, and the third component is its expansion ... *)
+Theorem checker_sound :
+  forall prow srow pids sids e, check_output prow srow pids sids = (true, true, e) ->
+  compact_ok (mk_cds (ns prow) (ns srow) pids sids) /\ NoDup pids /\ NoDup sids /\
+  e = expand 0 0 (mk_cds (ns prow) (ns srow) pids sids).
+Proof. exact checker_sound_l. Qed.
+
+(* ... and every output of the model passes, with its own id pairs: a rejected output differs from the model *)
+Theorem checker_accepts_model :
+  forall (P D : Type) (near : P -> P -> bool) (dist : P -> P -> D) (ctest : list P -> list P -> bool),
+  (forall a b, near a b = near b a) -> (forall a b, dist a b = dist b a) ->
+  (forall a b, ctest a b = true -> a = b) ->
+  forall tn st c dp ds res, 0 < bw tn ->
+  NoDup (map pid (points_of P dp)) -> NoDup (map pid (points_of P ds)) ->
+  snd (collocate P D near dist ctest tn st c dp ds) = Some res ->
+  check_output (zs (r_prow res)) (zs (r_srow res)) (map pid (r_prim res)) (map pid (r_sec res)) = (true, true, ids P D res).
+Proof. exact checker_accepts. Qed.
+
+(* Non-vacuity of the new hypotheses on the instance of `nonvacuous` (ids distinct, a result exists), direct and
+   binned path, fresh and after an earlier call with the datasets swapped: rows (id pair, interval [s], distance),
+   the pairs rows, the stored ids, and original_pairs with the ids of the selected points they index. *)
+Definition ex_rows (r : option (result Z Z)) : list (Z * Z * Z * Z) :=
+  match r with None => [] | Some x => combine (combine (ids Z Z x) (r_int x)) (r_dist x) end.
+Definition ex_compact (r : option (result Z Z)) : list nat * list nat * list Z * list Z :=
+  match r with None => ([], [], [], []) | Some x => (r_prow x, r_srow x, map pid (r_prim x), map pid (r_sec x)) end.
+
+Example nonvacuous_values :
+  NoDup (map pid (points_of Z ex_grid)) /\ NoDup (map pid (points_of Z ex_flat)) /\
+  let run tn st := snd (collocate Z Z ex_near ex_dist (list_eqb Z.eqb) tn st ex_cfg ex_grid ex_flat) in
+  let st1 := fst (collocate Z Z ex_near ex_dist (list_eqb Z.eqb) ex_binned (init_state Z) ex_cfg ex_flat ex_grid) in
+  let rows := [(15, 22, 0, 5); (15, 25, 0, 5); (10, 21, 1, 5); (10, 20, 1, 4)] in
+  let comp := ([0; 0; 1; 1]%nat, [0; 1; 2; 3]%nat, [15; 10], [22; 25; 21; 20]) in
+  ex_rows (run ex_tn (init_state Z)) = rows /\ ex_rows (run ex_binned (init_state Z)) = rows /\
+  isort (fun r => fst (fst (fst r)) * 1000 + snd (fst (fst r))) (ex_rows (run ex_tn st1)) =
+    [(10, 20, 1, 4); (10, 21, 1, 5); (15, 22, 0, 5); (15, 25, 0, 5)] /\
+  ex_compact (run ex_tn (init_state Z)) = comp /\ ex_compact (run ex_binned (init_state Z)) = comp /\
+  original_pairs Z Z ex_near ex_dist (list_eqb Z.eqb) ex_binned (init_state Z) ex_cfg ex_grid ex_flat
+    = [(2, 0); (2, 2); (3, 3); (3, 4)]%nat /\
+  map pid (selected_p Z ex_cfg ex_grid ex_flat) = [13; 14; 15; 10; 11; 12] /\
+  map pid (selected_s Z ex_cfg ex_grid ex_flat) = [22; 24; 25; 21; 20; 23].
+Proof.
+  split; [apply nodupZ_iff; reflexivity|]. split; [apply nodupZ_iff; reflexivity|].
+  vm_compute. repeat split.
+Qed.
 
 Print Assumptions pairs_exact.
 Print Assumptions none_iff_no_pair.
@@ -157,3 +296,12 @@ Print Assumptions trunc_check_equiv.
 Print Assumptions search_exact_any_cache.
 Print Assumptions array_equal_test_sound.
 Print Assumptions asis_cache_refuted.
+Print Assumptions each_index_pair_once.
+Print Assumptions each_pair_once.
+Print Assumptions values_are_of_the_pair.
+Print Assumptions compaction_consistent.
+Print Assumptions none_iff_no_row.
+Print Assumptions stored_points_once.
+Print Assumptions arrays_agree.
+Print Assumptions checker_sound.
+Print Assumptions checker_accepts_model.
